@@ -181,11 +181,25 @@ def snapJ (w : World) (nsrv : Nat) : Json :=
                     ("of", optListJ filtJ (w.owned m s).of), ("os", optListJ subJ (w.owned m s).os)])).toArray)]))
   Json.mkObj [("stores", Json.arr stores.toArray), ("mgrs", Json.arr mgrs.toArray)]
 
-def runSteps (nsrv : Nat) : World → List Op → List Json
-  | _, [] => []
-  | w, op :: ops =>
+/-- erase every ghost owner (stores and lists): a second run from scrubbed states must print the same -/
+def scrubSub (s : Sub) : Sub := { s with owner := none }
+def scrub (w : World) : World :=
+  { w with store := fun s => { w.store s with subs := (w.store s).subs.map scrubSub },
+           owned := fun m s => { w.owned m s with os := (w.owned m s).os.map (·.map scrubSub) } }
+
+/-- the model run; next to it a shadow run whose ghost fields are erased after every step.  The ghost is a
+    proof device: if any step function read it, the two runs could print different things — reported as
+    `ghost` = false and treated by the harness as a correspondence failure. -/
+def runSteps (nsrv : Nat) : World → World → List Op → List Json
+  | _, _, [] => []
+  | w, v, op :: ops =>
     let r := step w op
-    Json.mkObj [("res", resJ r.2), ("snap", snapJ r.1 nsrv)] :: runSteps nsrv r.1 ops
+    let q := step v op
+    let out := Json.mkObj [("res", resJ r.2), ("snap", snapJ r.1 nsrv)]
+    let shadow := Json.mkObj [("res", resJ q.2), ("snap", snapJ q.1 nsrv)]
+    let same := out.compress == shadow.compress
+    (if same then out else Json.mkObj [("res", resJ r.2), ("snap", snapJ r.1 nsrv), ("ghost", Json.bool false)])
+      :: runSteps nsrv r.1 (scrub q.1) ops
 
 def handleHist (j : Json) : Json :=
   match (getArr j "ops").mapM parseOp with
@@ -194,7 +208,7 @@ def handleHist (j : Json) : Json :=
     let nsrv := (getNat j "nsrv").getD 1
     let statics := (getArr j "static").map storeOf
     let w := World.init (fun s => statics.getD s {})
-    Json.mkObj [("steps", Json.arr (runSteps nsrv w ops).toArray)]
+    Json.mkObj [("steps", Json.arr (runSteps nsrv w (scrub w) ops).toArray)]
 
 def handle (j : Json) : Json :=
   match getStr j "t" with
